@@ -212,7 +212,7 @@ func (v *aBasic) Bin() (b []byte) {
 		b[0] = byte(si & 0xFF)
 		b[1] = byte((si >> 8) & 0xFF)
 
-	case *U32, *Rune:
+	case *U32:
 		b = make([]byte, 4)
 		i, _ := strconv.ParseUint(v.Name(), 0, 32)
 		si := uint32(i)
@@ -221,7 +221,7 @@ func (v *aBasic) Bin() (b []byte) {
 		b[2] = byte((si >> 16) & 0xFF)
 		b[3] = byte((si >> 24) & 0xFF)
 
-	case *I32:
+	case *I32, *Rune:
 		b = make([]byte, 4)
 		i, _ := strconv.ParseInt(v.Name(), 0, 32)
 		si := uint32(int32(i))
